@@ -87,11 +87,17 @@ type inflight struct {
 // (kernel software timestamps and time.Now() are both CLOCK_REALTIME)
 const slack = 200 * time.Microsecond
 
+// real 3.1 s waits left for "idle" moves in this run
+var idleBudget = 2
+
 func TestC03(t *testing.T) {
 	scheds := vio.ReadCases[[]move](t)
 	out := vio.Create(t)
 	defer out.Close()
 	rng := vio.Rand()
+	if vio.Thorough() {
+		idleBudget = 40
+	}
 	naccept, nbeh := 0, 0
 	for bi, sc := range scheds {
 		kind := "ip"
@@ -217,19 +223,16 @@ func runSchedule(t *testing.T, n *Net, sc []move, bi int, rng *rand.Rand, out *v
 				return naccept // client does not send any more (e.g. call still timing out)
 			}
 		case "idle":
-			// more than 3 s pass: make the previous exchange look that old
-			// (only possible while the client is quiescent between two calls; inside a
-			// call the next request is already on its way)
+			// more than 3 s pass. Only possible while the client is quiescent between
+			// two calls (inside a call the next request is already on its way), and
+			// only a few times per run because it costs real time; a skipped idle is
+			// always sound (the schedule's prediction then differs: strict only).
 			n.Poll()
-			if n.Calling() || len(n.Arrivals) > 0 {
+			if n.Calling() || len(n.Arrivals) > 0 || idleBudget <= 0 {
 				continue
 			}
-			p := n.T.Prev()
-			if p.Reference != "" {
-				tt := ntp.TimeFromTime64(p.CTxTime, time.Now())
-				p.CTxTime = ntp.Time64FromTime(tt.Add(-4 * time.Second))
-				n.T.SetPrev(p)
-			}
+			idleBudget--
+			time.Sleep(3100 * time.Millisecond)
 		case "theta":
 			n.SetTheta(time.Duration(mv.T) * 25 * time.Millisecond)
 		case "dup":
